@@ -494,7 +494,16 @@ pub fn walk_wide(sink: &mut Sink, seed: u64, run_id: u64, steps: usize, extreme_
                 let rq = v.reqs();
                 if let Some(q) = rq.choose(&mut rng) { json!({"m":"withdraw","s":q["u"],"b":q["b"]}) } else { json!({"m":"withdraw","s":user,"b":rng.gen_range(0..=nb+1)}) }
             }
-            17 => json!({"m":"recover","s":user,"paginated":*["none","true"].choose(&mut rng).unwrap(),"has_sel":false,"sel":[],"receiver":*["","n:u1"].choose(&mut rng).unwrap()}),
+            17 => {
+                if rng.gen_bool(0.3) {
+                    // a reply nobody asked for, and a sudo callback for nothing
+                    json!({"m":"stray_reply","id":*[0u64, 1, 7, u64::MAX].choose(&mut rng).unwrap(),"variant":rng.gen_range(0..4u64)})
+                } else if rng.gen_bool(0.3) {
+                    json!({"m":"stray","channel":*["channel-1","channel-9",""].choose(&mut rng).unwrap(),"seq":rng.gen_range(0..12u64),"kind":*["ok","err","timeout"].choose(&mut rng).unwrap()})
+                } else {
+                    json!({"m":"recover","s":user,"paginated":*["none","true"].choose(&mut rng).unwrap(),"has_sel":false,"sel":[],"receiver":*["","n:u1"].choose(&mut rng).unwrap()})
+                }
+            }
             18 => {
                 if v.stopped() {
                     // any totals whose rate stays within [10^-3, 10^3]
